@@ -184,7 +184,7 @@ def check(tier: str) -> int:
             acts[k] = acts.get(k, 0) + v
         for k, w, rep in r["viol"]:
             run.violation(k, w, rep)
-    need = {"PermuteKeys", "PermuteSubKeys", "Respell", "Requote", "Reflow", "CommuteExpr", "PermuteVars", "Alias", "AliasSub", "CommuteInner"}
+    need = {"PermuteKeys", "PermuteSubKeys", "Respell", "Requote", "Reflow", "CommuteExpr", "PermuteVars", "Alias", "AliasSub", "CommuteInner", "EmptyParams", "CommuteUnder"}
     if not need <= set(acts):
         raise core.MachineryError(f"vacuity: cosmetic actions never exercised: {sorted(need - set(acts))}")
     run.extra["edges_by_action"] = acts
